@@ -1174,7 +1174,13 @@ bool StepScript(ScriptExecutionEnvironment& env, CScript::const_iterator& pc, CS
                         valtype& vchSig = stacktop(-isig-k);
                         if (sigversion == SigVersion::BASE) {
                             int found = FindAndDelete(scriptCode, CScript() << vchSig);
-                            if (found > 0 && (flags & SCRIPT_VERIFY_CONST_SCRIPTCODE))
+                            // (a --pretend-valid signature may be pushed by the script itself, the documented way to use it: as in OP_CHECKSIG,
+                            // no error for a listed pair whose key is one of the keys of this operation)
+                            bool mocked = false;
+                            if (pretend_valid_map.count(vchSig)) {
+                                for (int j = 0; j < nKeysCount && !mocked; j++) mocked = stacktop(-ikey-j) == pretend_valid_map.at(vchSig);
+                            }
+                            if (found > 0 && (flags & SCRIPT_VERIFY_CONST_SCRIPTCODE) && !mocked)
                                 return set_error(serror, SCRIPT_ERR_SIG_FINDANDDELETE);
                         }
                     }
